@@ -448,6 +448,14 @@ def run(prog, chk):
     if memrules.dup_field_correspondence(prog, r7) < 5:
         raise Broken("fewer than 5 duplicated-field stores found")
 
+    r11 = chk.rule("R11-character-text-stored-verbatim", "the text of a character value is not handed to sqlite3_bind_text16 "
+                   "unexamined: SQLite takes a leading U+FEFF / U+FFFE for a byte-order mark (dropped; the latter also swaps the "
+                   "bytes of the rest) and returns U+FFFE / U+FFFF from its UTF-8 storage as U+FFFD; names and codes are "
+                   "refused by the validator if they contain these, value text is not", floor=3)
+    from .. import textstore
+    if textstore.rule(prog, r11) < 20:
+        raise Broken("fewer than 20 sqlite3_bind_text16 calls found")
+
     r10 = chk.rule("R10-hash-key-length", "every value handed out in a packet or table is filed under u_strlen(key) * sizeof(UChar) "
                    "bytes of the very key that is stored with it: a length taken from another name makes the value unreachable "
                    "by its name (shared with C09 R5 / C19 R7)", primary=False, floor=5)
